@@ -5,3 +5,6 @@ import LopdfModel.Model.Basic
 import LopdfModel.Model.Obj
 import LopdfModel.Model.Pages
 import LopdfModel.Thm.C12
+import LopdfModel.Model.Doc
+import LopdfModel.Model.Renumber
+import LopdfModel.Thm.C10
